@@ -20,7 +20,7 @@ import (
 func TestMain(m *testing.M) { fx.Main(m, "C12") }
 
 type Op struct {
-	Kind string `json:"kind"` // login relogin reloginN register close disconnect user
+	Kind string `json:"kind"` // login relogin reloginN register close disconnect regdrop user
 	Slot int    `json:"slot"`
 	Name int    `json:"name"` // index into names
 	N    int    `json:"n,omitempty"`
@@ -50,7 +50,7 @@ func pxyMsg(s *fx.Server, ni int, slot int) *msg.NewProxy {
 func gen(t *rapid.T) Case {
 	n := rapid.IntRange(3, 18).Draw(t, "nops")
 	c := Case{TCPMux: rapid.Bool().Draw(t, "tcpmux")}
-	kinds := []string{"login", "login", "relogin", "relogin", "reloginN", "register", "register", "register", "register", "close", "close", "disconnect", "user", "user", "user"}
+	kinds := []string{"login", "login", "relogin", "relogin", "reloginN", "register", "register", "register", "register", "close", "close", "disconnect", "regdrop", "user", "user", "user"}
 	c.Ops = append(c.Ops, Op{Kind: "login", Slot: 0}, Op{Kind: "login", Slot: 1})
 	for i := 0; i < n; i++ {
 		op := Op{Kind: rapid.SampledFrom(kinds).Draw(t, "kind"), Slot: rapid.IntRange(0, 2).Draw(t, "slot"), Name: rapid.IntRange(0, 3).Draw(t, "name")}
@@ -454,6 +454,25 @@ func run(c Case) (err error) {
 				}
 			}
 			waitGone(ss.sc.RunID)
+		case "regdrop":
+			// a registration is still on its way when the session ends: whatever the server makes of it, nothing of
+			// that session may be left once the session is gone
+			if ss == nil {
+				continue
+			}
+			_ = ss.sc.Send(pxyMsg(s, op.Name, op.Slot))
+			ss.sc.Close()
+			delete(slots, op.Slot)
+			for ni := range model {
+				if model[ni].slot == op.Slot {
+					delete(model, ni)
+				}
+			}
+			waitGone(ss.sc.RunID)
+			time.Sleep(30 * time.Millisecond)
+			if e := userCheck(i, op.Name); e != nil {
+				return fmt.Errorf("after a session ended with a registration of %s in flight: %v", names[op.Name], e)
+			}
 		case "user":
 			if e := userCheck(i, op.Name); e != nil {
 				return e
@@ -507,7 +526,7 @@ func classify(c Case) fx.Class {
 			if o, ok := live[op.Name]; ok && o == op.Slot && sessions[op.Slot] {
 				delete(live, op.Name)
 			}
-		case "disconnect":
+		case "disconnect", "regdrop":
 			if sessions[op.Slot] {
 				delete(sessions, op.Slot)
 				for n, o := range live {
